@@ -13,6 +13,16 @@ Run-time frame contracts on the REAL bionumpy functions over an enumerated small
                     ("chunk:history:<operation>:original-field-changed" / "-tolist-changed",
                     "chunk:<format>:history:<operation>:original-written-bytes-changed").
 
+  user-owned / writable buffers ("rawbuf", and every file format again WITHOUT final newline):
+                    the array handed to DelimitedBuffer.from_raw_buffer (writable, read-only, with an incomplete last entry,
+                    a slice of a larger array, CRLF) holds the same bytes after the buffer was made and after every field
+                    parse / get_data, for every column kind at every position of the line (also as the ONLY column);
+                    chunks of files without final newline and chunks concatenated from several small reads (both writable
+                    copies owned by the reader) write the same bytes after field access
+                    ("rawbuf:from_raw_buffer:user-array-changed-by-<step>:<column kind>",
+                    "rawbuf:file:<ending>:written-bytes-changed-by-field-access:<column kind>",
+                    "chunk:<format>:no-final-newline:...").
+
 The oracle is the statement itself: equality of snapshots (taken with copy.deepcopy, so that taking the snapshot
 does not change the aliasing state of lazily sliced ragged arrays) - results are never compared with an expected
 value, so defects of other properties (wrong parse results etc.) do not raise alarms here.
@@ -2035,36 +2045,51 @@ RAW_LIST_KINDS = ("List[int]", "List[float]", "List[bool]")
 
 
 def cases_rawbuf(tier):
-    """thorough: the whole product.  quick: per kind the table whose only column it is (1 and 3 rows; every source and way
-    of reading for 3 rows) and the table where it is the last column (2 rows); list-valued kinds at the other positions too"""
+    """per kind (list-valued kinds first) and position of the column in the line:
+       quick     the table whose only column it is (1 and 3 rows; every source and way of reading for 3 rows) and the table where
+                 it is the last column (2 rows); list-valued kinds at the other positions too
+       thorough  only column: 1..4 rows x every source, files of 2 and 3 rows read in every way; other positions: 2 and 3 rows,
+                 every source for 2 rows, files of 2 rows (read at once / in small chunks)"""
     full = tier != "quick"
 
     def case(kinds, focus, n, source, sc):
         return {"section": "rawbuf", "kinds": kinds, "focus": focus, "rows": n, "source": source, "scenario": sc}
 
-    for kind in RAW_KINDS:
+    for kind in RAW_LIST_KINDS + tuple(k for k in RAW_KINDS if k not in RAW_LIST_KINDS):
         for layout in RAW_LAYOUTS:
             kinds, focus = _raw_layout(kind, layout)
-            if full:
+            width = lambda n: len(_raw_lines(kinds, n)[0]) + 1
+            if full and layout == "only":
                 for n in (1, 2, 3, 4):
-                    for source in RAW_SOURCES:
-                        for sc in _raw_scenarios(kinds, focus, n, 2):
+                    for source in (RAW_SOURCES if n < 4 else RAW_SOURCES[:1]):
+                        for sc in _raw_scenarios(kinds, focus, n, 2 if source == "writable" else 0):
                             yield case(kinds, focus, n, source, sc)
-                    width = len(_raw_lines(kinds, n)[0]) + 1
+                for n in (3, 2):
+                    w = width(n)
+                    ks = sorted({3, 5, w + 1, 2 * w}) if n == 3 else [w + 1]
                     for ending in RAW_FILE_ENDINGS:
-                        for how in ["read", "read_chunk"] + ["read_chunks/%d" % k for k in sorted({2, 3, 5, width, width + 1, 2 * width})]:
+                        for how in ["read"] + (["read_chunk"] if n == 3 else []) + ["read_chunks/%d" % k for k in ks]:
                             for sc in _rawfile_scenarios(kinds, focus, 2):
                                 yield case(kinds, focus, n, "file/%s/%s" % (ending, how), sc)
-                continue
-            if layout == "only":
+            elif full:
+                for source in RAW_SOURCES:
+                    for sc in _raw_scenarios(kinds, focus, 2, 2 if source == "writable" else 0):
+                        yield case(kinds, focus, 2, source, sc)
+                for sc in _raw_scenarios(kinds, focus, 3, 1):
+                    yield case(kinds, focus, 3, "writable", sc)
+                k = width(2) + 1
+                for source, level in (("file/no-final-newline/read", 2), ("file/no-final-newline/read_chunks/%d" % k, 2),
+                                      ("file/final-newline/read_chunks/%d" % k, 1)):
+                    for sc in _rawfile_scenarios(kinds, focus, level):
+                        yield case(kinds, focus, 2, source, sc)
+            elif layout == "only":
                 for sc in _raw_scenarios(kinds, focus, 1, 1):
                     yield case(kinds, focus, 1, "writable", sc)
                 for source in RAW_SOURCES:
                     for sc in _raw_scenarios(kinds, focus, 3, 1 if source == "writable" else 0):
                         yield case(kinds, focus, 3, source, sc)
-                width = len(_raw_lines(kinds, 3)[0]) + 1
                 for source in ("file/no-final-newline/read", "file/no-final-newline/read_chunk", "file/no-final-newline/read_chunks/3",
-                               "file/no-final-newline/read_chunks/%d" % (width + 2), "file/final-newline/read_chunks/3"):
+                               "file/no-final-newline/read_chunks/%d" % (width(3) + 2), "file/final-newline/read_chunks/3"):
                     for sc in _rawfile_scenarios(kinds, focus, 1):
                         yield case(kinds, focus, 3, source, sc)
             elif layout == "last" or kind in RAW_LIST_KINDS:
@@ -2113,12 +2138,12 @@ def writable_chunk_scenarios(env, tier, full_file):
 
 
 def run_writable_chunks(col, tier, tmp, allowed_s):
-    """every format of FORMATS, file without final newline: whole pool of lines, first line only, (thorough) first two lines"""
+    """every format of FORMATS, file without final newline: whole pool of lines, (thorough) first line only"""
     import time
     t0 = time.time()
     for fmt in FORMATS:
         n = len(FORMATS[fmt][3])
-        files = [list(range(n))] + ([[0]] + ([[0, 1]] if n > 2 else []) if tier != "quick" else [])
+        files = [list(range(n))] + ([[0]] if tier != "quick" else [])
         for lines in files:
             case0 = {"section": "chunk", "format": fmt, "lines": lines, "scenario": ["baseline"], "final_newline": False}
             try:
@@ -2139,7 +2164,7 @@ def run_writable_chunks(col, tier, tmp, allowed_s):
 # ----------------------------------------------------------------------------------------------------------------
 
 SECTION_ORDER = ("text", "seq", "interval", "genomic", "table")
-NEW_ALLOWANCE = ((6.5, 3), (40, 18))       # seconds for (rawbuf, writable chunks of every format): quick, thorough
+NEW_ALLOWANCE = ((6.5, 3.5), (40, 19))       # seconds for (rawbuf, writable chunks of every format): quick, thorough
 # share of the wall budget after which a section is cut short (the chunk section gets what is left)
 QUICK_DEADLINES = {"text": 10, "seq": 20, "interval": 30, "genomic": 36, "table": 42}
 THOROUGH_DEADLINES = {"text": 90, "seq": 150, "interval": 230, "genomic": 260, "table": 290}
@@ -2156,7 +2181,11 @@ def run(tier="quick", seed=0):
                          "replace(T, f2=..), and x a registry of second operations (indexing, concatenate, writing, conversions, "
                          "reverse complement / translation, assignment or replace on a slice), chains of replace - the chunk that "
                          "carries the user-set values is observed (fields, written bytes, tolist()) against a twin with the same "
-                         "first step. distinct = distinct (function, argument) "
+                         "first step; delimited buffers over user-owned / writable bytes: column kind x position of the column "
+                         "(only column, last, first, middle, twice) x 1..4 rows x (from_raw_buffer on a writable / read-only / "
+                         "partly incomplete / sliced / CRLF user array; files with and without final newline read at once or in "
+                         "small chunks) x short histories of field parses, and every file format without final newline. "
+                         "distinct = distinct (function, argument) "
                          "or (file, scenario); every case is non-trivial (it evaluates a frame / repeatability contract). "
                          "Sampling (seeded) only for tuples of length 3 in the quick tier and float triples.",
                     budget_s=58 if tier == "quick" else 570)
@@ -2169,6 +2198,13 @@ def run(tier="quick", seed=0):
                      "types": ["Interval", "Bed6"], "second table": INTERVAL_OTHERS},
         "genomic": {"genome": GENOME, "entries": GENOMIC_POOL, "entries per table": "1..3 (quick: singles + every 4th)"},
         "table": {"kinds": list(TABLE_KINDS), "rows": "1..4" if tier != "quick" else "1, 3", "indices": "slices, all boolean masks, index lists of length 1..2, ints"},
+        "rawbuf": {"column kinds": list(RAW_KINDS), "positions": list(RAW_LAYOUTS), "rows": "1..4 (quick: 1..3)",
+                   "user arrays": list(RAW_SOURCES), "file endings": list(RAW_FILE_ENDINGS),
+                   "ways of reading": ["read", "read_chunk", "read_chunks(min_chunk_size = 3, 5, line width + 1, 2 x line width)"],
+                   "histories": "field twice, get_data then field, all fields in both orders, field of a row selection; thorough: "
+                                "single fields, get_data twice, field then get_data, other field then field",
+                   "every format without final newline": "fields in file order and reversed, functions on field values; thorough: "
+                                                         "single fields, write twice, slices, whole pool and first line"},
         "chunk": {"formats": list(FORMATS), "lines per file": "every non-empty sub-selection of the pool (quick: whole pool and first line)",
                   "pool sizes": {k: len(v[3]) for k, v in FORMATS.items()},
                   "histories": {"first step": list(HISTORY_MODES) + ["(variants) all fields read before", "chunk observed before the second operation"],
